@@ -66,19 +66,23 @@ func newSession(cfg config, domain uint32) (*session, error) {
 	if err != nil {
 		return nil, err
 	}
-	ein := exporter.ExporterInput{CollectorAddress: coll.Addr(), CollectorProtocol: cfg.proto, ObservationDomainID: domain, IsIPv6: cfg.v6, TempRefTimeout: 1800}
+	ep, err := newExporter(cfg, coll.Addr(), domain)
+	if err != nil {
+		coll.Stop(10 * time.Second)
+		return nil, err
+	}
+	return &session{cfg: cfg, coll: coll, ep: ep, domain: domain}, nil
+}
+
+func newExporter(cfg config, addr string, domain uint32) (*exporter.ExportingProcess, error) {
+	ein := exporter.ExporterInput{CollectorAddress: addr, CollectorProtocol: cfg.proto, ObservationDomainID: domain, IsIPv6: cfg.v6, TempRefTimeout: 1800}
 	if cfg.enc {
 		ein.TLSClientConfig = &exporter.ExporterTLSClientConfig{CAData: ca.CertPEM}
 		if cfg.proto == "tcp" && cfg.v6 {
 			ein.TLSClientConfig.CertData, ein.TLSClientConfig.KeyData = client.CertPEM, client.KeyPEM
 		}
 	}
-	ep, err := exporter.InitExportingProcess(ein)
-	if err != nil {
-		coll.Stop(10 * time.Second)
-		return nil, err
-	}
-	return &session{cfg: cfg, coll: coll, ep: ep, domain: domain}, nil
+	return exporter.InitExportingProcess(ein)
 }
 
 func (s *session) close() {
@@ -196,6 +200,20 @@ func main() {
 		if m := s.coll.Mutations(); len(m) > 0 {
 			c.Violation(k, "delivered-message-changed-later:"+cfg.name, m[0], desc)
 			ok = false
+		}
+		if ok && k%16 == 15 && !(cfg.proto == "udp" && cfg.enc) {
+			// exporter turnover: a new exporting process of the same observation domain connects to the
+			// same long-lived collector (an exporter restart). Its template ids start again at 256, so the
+			// collector sees earlier template ids redefined. (Not over DTLS: that collector serves one session.)
+			s.ep.CloseConnToCollector()
+			ep, err := newExporter(cfg, s.coll.Addr(), s.domain)
+			if err != nil {
+				c.Inconclusive("exporter turnover: " + err.Error())
+				ok = false
+			} else {
+				s.ep = ep
+				c.Add("exporter_turnovers", 1)
+			}
 		}
 		if !ok {
 			// re-establish the session after any failure (a stream collector closes on error)
